@@ -42,7 +42,9 @@ def mk_records(rng, table, n, allow_bad, unknown_rate=0.1):
 def cases(tier, seed):
     rng = random.Random(seed)
     tables = list(gen.REPRESENTATIVE_TABLES.values()) + [gen.binnify([6, 4], 2), gen.binnify([4, 4], 4), gen.binnify([5], 1),
-                                                          gen.table_from_edges([[0, 2, 3, 7], [0, 1, 5]])]
+                                                          gen.table_from_edges([[0, 2, 3, 7], [0, 1, 5]]),
+                                                          # a width whose reciprocal is not exact in binary floating point
+                                                          gen.binnify([490, 196], 49), gen.binnify([515], 103)]
     n1 = 700 if tier == "quick" else 12000
     for h in range(n1):
         table = tables[h % len(tables)]
